@@ -232,6 +232,21 @@ func sealChildMain(args []string) {
 			os.Exit(5)
 		}
 	}
+	if len(args) > 6 && strings.HasPrefix(args[6], "nosync:") {
+		// the seal output with this suffix cannot be fsynced: it is pre-created as a symlink to /dev/null, os.Create
+		// follows it, every write "succeeds" and fsync returns EINVAL (what EIO at write-back time looks like)
+		ents, _ := os.ReadDir(dir)
+		for _, e := range ents {
+			if b, suf := suffixOf(e.Name()); suf == consts.DocsFileSuffix {
+				fmt.Println("BASE", b)
+				if err := os.Symlink(os.DevNull, filepath.Join(dir, b+strings.TrimPrefix(args[6], "nosync:"))); err != nil {
+					fmt.Println("SYMLINKERR", err)
+					os.Exit(6)
+				}
+			}
+		}
+	}
+	fmt.Println("SEALING")
 	fm.SealForcedForTests()
 	fmt.Println("SEALED")
 	os.Exit(0)
@@ -569,6 +584,9 @@ type harness struct {
 	orSdocs   *vh.Oracle
 	orFull    *vh.Oracle
 	orOverlap *vh.Oracle
+	orSync    *vh.Oracle
+	orSys     *vh.Oracle
+	chSys     *vh.Channel
 	tplDir    string // valid files of one fraction (docs, meta from the active fraction; sdocs, index from its sealed form)
 	tplBase   string
 }
@@ -803,6 +821,186 @@ func (h *harness) overlap(n int, seedA, seedB int64) {
 			What: fmt.Sprintf("fraction B was sealed completely while the seal of fraction A was between writeSortedDocs and its first index block; after release and restart A serves %q (%s) and B serves %q (%s)",
 				ra.served, ra.detail, rb.served, rb.detail), Replay: []string{key}})
 	}
+}
+
+// syncFault seals through the real FracManager while one seal output cannot be fsynced; the seal must fail without
+// giving that output its final name, and a restart must serve everything.
+func (h *harness) syncFault(skip bool, n int, seed int64, tmpSuffix string) {
+	work, _ := os.MkdirTemp(h.work, "sf")
+	defer os.RemoveAll(work)
+	exe, _ := os.Executable()
+	ctx, cancel := context.WithTimeout(context.Background(), 120*time.Second)
+	defer cancel()
+	cmd := exec.CommandContext(ctx, exe, "sealchild", work, fmt.Sprint(seed), fmt.Sprint(n), vh.B(skip), "0", "0", "nosync:"+tmpSuffix)
+	var out bytes.Buffer
+	cmd.Stdout = &out
+	cmd.Stderr = io.Discard
+	err := cmd.Run()
+	key := fmt.Sprintf("syncfault skip=%s n=%d seed=%d suffix=%s", vh.B(skip), n, seed, tmpSuffix)
+	base := ""
+	for _, l := range strings.Split(out.String(), "\n") {
+		if strings.HasPrefix(l, "BASE ") {
+			base = strings.TrimPrefix(l, "BASE ")
+		}
+	}
+	if !strings.Contains(out.String(), "SEALING") || base == "" {
+		h.orSync.Error = fmt.Sprintf("%s: the child did not get to the seal: %v %s", key, err, out.String())
+		return
+	}
+	sealed := strings.Contains(out.String(), "SEALED")
+	final := strings.Replace(tmpSuffix, "._", ".", 1)
+	_, lerr := os.Lstat(filepath.Join(work, base+final))
+	published := lerr == nil
+	res := runChild(work, seed, n, skip, false)
+	h.orSync.Case(key, true, "sealed="+vh.B(sealed), "published="+vh.B(published), "served="+res.served, "suffix="+tmpSuffix)
+	if published || sealed || res.served != "all" {
+		h.rep.Violate(vh.Violation{Site: "frac/active_sealer.go:syncRename", Class: "unsynced-output-published",
+			What: fmt.Sprintf("fsync of %s fails (EINVAL): seal reported success=%v, %s exists afterwards=%v; after restart the fraction serves %q of its %d documents: %s",
+				tmpSuffix, sealed, final, published, res.served, n, res.detail), Replay: []string{key}})
+	}
+}
+
+// syscalls runs rotate + seal in a child under strace and reads the file operations on the sealed fraction's files off
+// the system calls themselves (independent of the verifhook points).
+func (h *harness) syscalls(skip, keep bool, n int, seed int64) {
+	work, _ := os.MkdirTemp(h.work, "sc")
+	defer os.RemoveAll(work)
+	strace, err := exec.LookPath("strace")
+	if err != nil {
+		h.rep.Note("strace not available: seal.syscalls skipped")
+		return
+	}
+	exe, _ := os.Executable()
+	dir := filepath.Join(work, "data")
+	os.MkdirAll(dir, 0o755)
+	trace := filepath.Join(work, "trace.txt")
+	ctx, cancel := context.WithTimeout(context.Background(), 180*time.Second)
+	defer cancel()
+	cmd := exec.CommandContext(ctx, strace, "-f", "-y", "-s", "0", "-e", "trace=openat,write,pwrite64,fsync,fdatasync,rename,renameat,renameat2,unlink,unlinkat",
+		"-o", trace, exe, "sealchild", dir, fmt.Sprint(seed), fmt.Sprint(n), vh.B(skip), vh.B(keep), "0")
+	var out bytes.Buffer
+	cmd.Stdout = &out
+	cmd.Stderr = io.Discard
+	rerr := cmd.Run()
+	key := fmt.Sprintf("syscalls skip=%s keep=%s n=%d seed=%d", vh.B(skip), vh.B(keep), n, seed)
+	if !strings.Contains(out.String(), "SEALED") {
+		h.chSys.Error = fmt.Sprintf("%s: traced seal failed: %v %s", key, rerr, out.String())
+		return
+	}
+	b, _ := os.ReadFile(trace)
+	ops := parseStrace(string(b), dir)
+	h.chSys.Add(fmt.Sprintf("seal src %s %s 1,2,2,2,2,6,2 - -", vh.B(skip), vh.B(keep)), "ok 1 trace="+strings.Join(ops, ";"), true, fmt.Sprintf("skip=%s,keep=%s", vh.B(skip), vh.B(keep)))
+	// durable before visible, checked on the observed calls alone: a temporary file gets its final name only when the
+	// last thing that happened to it was an fsync
+	last := map[string]string{}
+	for i, op := range ops {
+		f := strings.SplitN(op, ":", 2)
+		switch f[0] {
+		case "create", "write", "sync":
+			last[f[1]] = f[0]
+		case "rename":
+			ft := strings.SplitN(f[1], ">", 2)
+			ok := last[ft[0]] == "sync"
+			h.orSys.Case(fmt.Sprintf("%s op=%d %s", key, i, op), true, "synced-before-rename="+vh.B(ok))
+			if !ok {
+				h.rep.Violate(vh.Violation{Site: "frac/active_sealer.go:syncRename", Class: "renamed-before-fsync",
+					What:   fmt.Sprintf("system calls of the seal: %s - %s is renamed to its final name while the last operation on it was %q, not fsync: a crash here leaves a final-named file whose contents are not durable", strings.Join(ops, ";"), ft[0], last[ft[0]]),
+					Replay: []string{key}})
+			}
+			last[ft[1]] = last[ft[0]]
+			delete(last, ft[0])
+		}
+	}
+}
+
+// parseStrace reduces an strace log to the model's operations on the first fraction whose ._index is created.
+func parseStrace(log, dir string) []string {
+	var ops []string
+	base := ""
+	add := func(op string) {
+		if strings.HasPrefix(op, "write:") && len(ops) > 0 && ops[len(ops)-1] == op {
+			return
+		}
+		ops = append(ops, op)
+	}
+	nameOf := func(path string) (string, bool) { // model name of a file of the traced fraction
+		b, suf := suffixOf(path)
+		if n, ok := sufName[suf]; ok && b == base {
+			return n, true
+		}
+		return "", false
+	}
+	quoted := func(s string) []string { // the quoted strings of a call
+		var res []string
+		for {
+			i := strings.IndexByte(s, '"')
+			if i < 0 {
+				return res
+			}
+			j := strings.IndexByte(s[i+1:], '"')
+			if j < 0 {
+				return res
+			}
+			res = append(res, s[i+1:i+1+j])
+			s = s[i+j+2:]
+		}
+	}
+	fdPath := func(s string) string { // fsync(7</path>) -> /path
+		i, j := strings.IndexByte(s, '<'), strings.IndexByte(s, '>')
+		if i < 0 || j < i {
+			return ""
+		}
+		return s[i+1 : j]
+	}
+	for _, l := range strings.Split(log, "\n") {
+		i := strings.IndexByte(l, ' ')
+		if i < 0 {
+			continue
+		}
+		call := strings.TrimSpace(l[i:])
+		switch {
+		case strings.HasPrefix(call, "openat("):
+			q := quoted(call)
+			if len(q) == 0 || !strings.Contains(call, "O_CREAT") || !strings.Contains(call, "O_TRUNC") {
+				continue
+			}
+			b, suf := suffixOf(q[0])
+			if base == "" && suf == consts.IndexTmpFileSuffix {
+				base = b
+			}
+			if n, ok := nameOf(q[0]); ok {
+				add("create:" + n)
+			}
+		case base == "":
+			continue
+		case strings.HasPrefix(call, "write(") || strings.HasPrefix(call, "pwrite64("):
+			if n, ok := nameOf(fdPath(call)); ok {
+				add("write:" + n)
+			}
+		case strings.HasPrefix(call, "fsync(") || strings.HasPrefix(call, "fdatasync("):
+			p := fdPath(call)
+			if p == dir {
+				add("syncdir")
+			} else if n, ok := nameOf(p); ok {
+				add("sync:" + n)
+			}
+		case strings.HasPrefix(call, "rename"):
+			if q := quoted(call); len(q) == 2 {
+				a, ok1 := nameOf(q[0])
+				b, ok2 := nameOf(q[1])
+				if ok1 && ok2 {
+					add("rename:" + a + ">" + b)
+				}
+			}
+		case strings.HasPrefix(call, "unlink"):
+			if q := quoted(call); len(q) == 1 {
+				if n, ok := nameOf(q[0]); ok {
+					add("remove:" + n)
+				}
+			}
+		}
+	}
+	return ops
 }
 
 type failingWriter struct {
@@ -1041,6 +1239,9 @@ func main() {
 		orFault:   vh.NewOracle("fault.restart", "after writeSealedFraction ran on an output whose k-th call failed, the harness does what frac.Seal/proxyFrac.Seal do next (error: nothing; nil: syncRename, directory sync, Active.Release) and restarts: every document must be served; quick: every k whose error was dropped (up to 6) + every 5th k, thorough: every k, once and persistent; non-trivial = the fault fired"),
 		orFull:    vh.NewOracle("seal.diskfull", "the real rotate + proxyFrac.Seal in a child process whose RLIMIT_FSIZE is lowered before the seal, so that every write growing a file beyond the limit fails (EFBIG) - limits spread from 16 bytes to the size of the largest sealed file; then a restart must serve every document; non-trivial = the seal failed"),
 		orOverlap: vh.NewOracle("seal.overlap", "two fractions sealed with the real frac.Seal, the second completely inside the window in which the first has returned from writeSortedDocs but not yet written its first index block (forced at the seal.sec point); after Release of both and a restart every document of both must be searchable and fetchable"),
+		orSync:    vh.NewOracle("seal.syncfault", "the real rotate + proxyFrac.Seal in a child process in which one seal output (._index, ._sdocs) cannot be fsynced (pre-created as a symlink to /dev/null: writes succeed, fsync returns EINVAL): the seal must fail, the output must not get its final name, and a restart must serve every document"),
+		orSys:     vh.NewOracle("seal.syscalls.order", "durable before visible on the system calls of a real seal (child under strace, independent of the hook points): every rename of a temporary seal output to its final name is directly preceded - as far as that file is concerned - by its fsync"),
+		chSys:     vh.NewChannel("seal.syscalls", "the open(O_CREAT|O_TRUNC)/write/fsync/rename/unlink system calls on the sealed fraction's files and the fsync of the data directory, read off an strace of a child that rotates and seals through FracManager, vs SV.SealOps.sealTrace"),
 		orSdocs:   vh.NewOracle("sdocs.fault", "writeDocsInOrder on an io.Writer whose k-th write fails must return an error (or panic in the deferred release); non-trivial = the fault fired"),
 	}
 	rng := vh.NewRNG(o.Seed)
@@ -1059,6 +1260,10 @@ func main() {
 				h.faultRestart(faultCase{kv["skip"] == "1", kv["keep"] == "1", atoi("n"), seed, atoi("k"), kv["persistent"] == "1"})
 			case strings.HasPrefix(l, "crash "):
 				h.crashSweep(kv["skip"] == "1", kv["keep"] == "1", atoi("n"), seed, rng, false)
+			case strings.HasPrefix(l, "syncfault "):
+				h.syncFault(kv["skip"] == "1", atoi("n"), seed, kv["suffix"])
+			case strings.HasPrefix(l, "syscalls "):
+				h.syscalls(kv["skip"] == "1", kv["keep"] == "1", atoi("n"), seed)
 			case strings.HasPrefix(l, "overlap "):
 				sa, _ := strconv.ParseInt(kv["seedA"], 10, 64)
 				sb, _ := strconv.ParseInt(kv["seedB"], 10, 64)
@@ -1096,6 +1301,19 @@ func main() {
 				h.overlap(o.Pick(300, 1200)+97*i, seed+20+int64(2*i), seed+21+int64(2*i))
 			}
 		}
+		if only("syncfault") {
+			h.syncFault(false, o.Pick(300, 900), seed+30, consts.IndexTmpFileSuffix)
+			h.syncFault(false, o.Pick(300, 900), seed+31, consts.SdocsTmpFileSuffix)
+			h.syncFault(true, o.Pick(300, 900), seed+32, consts.IndexTmpFileSuffix)
+		}
+		if only("syscalls") {
+			h.syscalls(false, false, o.Pick(300, 1500), seed+40)
+			h.syscalls(true, false, o.Pick(300, 1500), seed+41)
+			if o.Thorough() {
+				h.syscalls(false, true, 700, seed+42)
+				h.syscalls(true, true, 700, seed+43)
+			}
+		}
 		if only("diskfull") {
 			h.diskFullSweep(false, false, o.Pick(800, 3000), seed+6, o.Pick(8, 40))
 			h.diskFullSweep(true, false, o.Pick(800, 3000), seed+7, o.Pick(5, 25))
@@ -1107,13 +1325,15 @@ func main() {
 			h.faultSweep(true, false, consts.LIDBlockCap+o.Pick(4500, 70000), seed+8, true)
 		}
 	}
-	for _, c := range []*vh.Channel{h.chLoad, h.chTrace, h.chCrash, h.chFault} {
+	for _, c := range []*vh.Channel{h.chLoad, h.chTrace, h.chCrash, h.chFault, h.chSys} {
 		rep.AddChannel(c, o.Driver)
 	}
 	rep.AddOracle(h.orCrash)
 	rep.AddOracle(h.orFault)
 	rep.AddOracle(h.orFull)
 	rep.AddOracle(h.orOverlap)
+	rep.AddOracle(h.orSync)
+	rep.AddOracle(h.orSys)
 	rep.AddOracle(h.orSdocs)
 	sort.SliceStable(rep.Violations, func(i, j int) bool { return rep.Violations[i].Site < rep.Violations[j].Site })
 	rep.Write(o.Out)
